@@ -211,6 +211,11 @@ pub struct Shader {
     /// raw text placed in a leading block comment (C16)
     #[serde(default, skip_serializing_if = "Option::is_none")]
     pub comment: Option<String>,
+    /// concrete-syntax decorations that leave the abstract shader unchanged: "diagnostic" (a `diagnostic(off, ..)` directive),
+    /// "const_assert" (a module-scope `const_assert`), "invariant" (`@invariant` on position outputs in structs),
+    /// "interpolate" (`@interpolate(..)` variants on float @location members of structs no vertex entry takes)
+    #[serde(default, skip_serializing_if = "Vec::is_empty")]
+    pub decor: Vec<String>,
     /// `alias Name = ty;` declarations: concrete syntax only, every occurrence of `ty` in a member or variable type is spelled `Name`
     #[serde(default, skip_serializing_if = "Vec::is_empty")]
     pub aliases: Vec<AliasDef>,
